@@ -7,6 +7,7 @@ pub mod c11;
 pub mod c16;
 pub mod c21;
 pub mod dbg;
+pub mod c27;
 pub mod c31;
 pub mod c32;
 
@@ -21,6 +22,7 @@ pub fn dispatch(id: &str, args: &Args) -> i32 {
         "C11" => drive_main(&c11::C11, args),
         "C16" => drive_main(&c16::C16, args),
         "C21" => drive_main(&c21::C21, args),
+        "C27" => drive_main(&c27::C27, args),
         "C31" => drive_main(&c31::C31, args),
         "C32" => drive_main(&c32::C32, args),
         "dbg" => crate::props::dbg::main(),
